@@ -147,6 +147,9 @@ func checkBytes(c *codec, b []byte, rep *report) {
 	}
 	if err != nil {
 		key := c.name + "-reencode-fails"
+		if c.reencKey != nil {
+			key = c.reencKey(b, c.name)
+		}
 		if _, isPanic := err.(panicErr); isPanic {
 			key = c.name + "-reencode-panic"
 		}
